@@ -136,8 +136,11 @@ pub struct ShapeIterator<'a, T: Read, S: ReadableShape> {
     _shape: std::marker::PhantomData<S>,
     // From where we read the shapes
     source: &'a mut T,
-    // Current position in bytes in the source.
-    current_pos: usize,
+    // Current position in bytes in the source, kept in the reader
+    // so that it stays true once this iterator is dropped.
+    current_pos: &'a mut usize,
+    // Index of the next shape to yield, kept in the reader as well.
+    next_shape: &'a mut usize,
     // How many bytes the header said there are in
     // the file.
     file_length: usize,
@@ -146,46 +149,49 @@ pub struct ShapeIterator<'a, T: Read, S: ReadableShape> {
     shapes_indices: Option<std::slice::Iter<'a, ShapeIndex>>,
 }
 
+/// Value of the tracked source position when it is not known (after a failed read or seek)
+const UNKNOWN_POSITION: usize = usize::MAX;
+
 impl<T: Read + Seek, S: ReadableShape> Iterator for ShapeIterator<'_, T, S> {
     type Item = Result<S, crate::Error>;
 
     fn next(&mut self) -> Option<Self::Item> {
         // With an index, the index alone tells where the records are and when they end
         // (they may be stored in any order); without, the length declared in the header does.
-        if self.shapes_indices.is_none() && self.current_pos >= self.file_length {
-            None
-        } else {
-            if let Some(ref mut shapes_indices) = self.shapes_indices {
-                // Its 'safer' to seek to the shape offset when we have the `shx` file
-                // as some shapes may not be stored sequentially and may contain 'garbage'
-                // bytes between them
-                let start_pos = match shapes_indices.next()?.byte_offset() {
-                    Ok(pos) => pos,
-                    Err(err) => return Some(Err(err.into())),
-                };
-                if start_pos != self.current_pos as u64 {
-                    if let Err(err) = self.source.seek(SeekFrom::Start(start_pos)) {
-                        return Some(Err(err.into()));
-                    }
-                    self.current_pos = start_pos as usize;
-                }
-            }
-            let (hdr, shape) = match read_one_shape_as::<T, S>(self.source) {
-                Err(e) => {
-                    if self.shapes_indices.is_none() {
-                        // Without an index there is no way to find the next record:
-                        // the error is reported once and the iteration ends.
-                        self.current_pos = self.file_length;
-                    }
-                    return Some(Err(e));
-                }
-                Ok(hdr_and_shape) => hdr_and_shape,
+        if let Some(ref mut shapes_indices) = self.shapes_indices {
+            // Its 'safer' to seek to the shape offset when we have the `shx` file
+            // as some shapes may not be stored sequentially and may contain 'garbage'
+            // bytes between them
+            let shape_index = shapes_indices.next()?;
+            *self.next_shape += 1;
+            let start_pos = match shape_index.byte_offset() {
+                Ok(pos) => pos,
+                Err(err) => return Some(Err(err.into())),
             };
-            self.current_pos += record::RecordHeader::SIZE;
-            // read_one_shape_as checked that the size is not negative and can be doubled
-            self.current_pos += hdr.record_size as usize * 2;
-            Some(Ok(shape))
+            if start_pos != *self.current_pos as u64 {
+                *self.current_pos = UNKNOWN_POSITION;
+                if let Err(err) = self.source.seek(SeekFrom::Start(start_pos)) {
+                    return Some(Err(err.into()));
+                }
+                *self.current_pos = start_pos as usize;
+            }
+        } else if *self.current_pos >= self.file_length {
+            return None;
         }
+        let (hdr, shape) = match read_one_shape_as::<T, S>(self.source) {
+            Err(e) => {
+                // Where the source is now is not known. Without an index there is
+                // no way to find the next record: the error is reported once and
+                // the iteration ends.
+                *self.current_pos = UNKNOWN_POSITION;
+                return Some(Err(e));
+            }
+            Ok(hdr_and_shape) => hdr_and_shape,
+        };
+        *self.current_pos += record::RecordHeader::SIZE;
+        // read_one_shape_as checked that the size is not negative and can be doubled
+        *self.current_pos += hdr.record_size as usize * 2;
+        Some(Ok(shape))
     }
 
     fn size_hint(&self) -> (usize, Option<usize>) {
@@ -233,6 +239,10 @@ pub struct ShapeReader<T> {
     source: T,
     header: header::Header,
     shapes_index: Option<Vec<ShapeIndex>>,
+    // Position in bytes of the source (or UNKNOWN_POSITION)
+    current_pos: usize,
+    // Index of the shape the next iteration starts with
+    next_shape: usize,
 }
 
 impl<T: Read> ShapeReader<T> {
@@ -265,6 +275,8 @@ impl<T: Read> ShapeReader<T> {
             source,
             header,
             shapes_index: None,
+            current_pos: header::HEADER_SIZE as usize,
+            next_shape: 0,
         })
     }
 
@@ -295,6 +307,8 @@ impl<T: Read> ShapeReader<T> {
             source,
             header,
             shapes_index,
+            current_pos: header::HEADER_SIZE as usize,
+            next_shape: 0,
         })
     }
 
@@ -386,14 +400,22 @@ impl<T: Read + Seek> ShapeReader<T> {
     /// # }
     /// ```
     pub fn iter_shapes_as<S: ReadableShape>(&mut self) -> ShapeIterator<'_, T, S> {
+        // The iteration goes on from where the reader is: the start for a new reader
+        // or after a random access, the shape sought by `seek`, or where
+        // a previous iteration stopped.
+        let next_shape = self.next_shape;
         ShapeIterator {
             _shape: std::marker::PhantomData,
             source: &mut self.source,
-            current_pos: header::HEADER_SIZE as usize,
+            current_pos: &mut self.current_pos,
+            next_shape: &mut self.next_shape,
             file_length: usize::try_from(self.header.file_length)
                 .unwrap_or(0)
                 .saturating_mul(2),
-            shapes_indices: self.shapes_index.as_ref().map(|s| s.iter()),
+            shapes_indices: self
+                .shapes_index
+                .as_ref()
+                .map(|s| s[next_shape.min(s.len())..].iter()),
         }
     }
 
@@ -459,6 +481,9 @@ impl<T: Read + Seek> ShapeReader<T> {
                 return Some(Err(e));
             }
 
+            // Whatever happens next, an iteration starts again from the first shape
+            self.next_shape = 0;
+            self.current_pos = UNKNOWN_POSITION;
             let (_, shape) = match read_one_shape_as::<T, S>(&mut self.source) {
                 Err(e) => return Some(Err(e)),
                 Ok(hdr_and_shape) => hdr_and_shape,
@@ -470,6 +495,7 @@ impl<T: Read + Seek> ShapeReader<T> {
             {
                 return Some(Err(Error::IoError(e)));
             }
+            self.current_pos = header::HEADER_SIZE as usize;
             Some(Ok(shape))
         } else {
             Some(Err(Error::MissingIndexFile))
@@ -490,10 +516,13 @@ impl<T: Read + Seek> ShapeReader<T> {
     /// was not constructed with [ShapeReader::with_shx]
     pub fn seek(&mut self, index: usize) -> Result<(), Error> {
         if let Some(ref shapes_index) = self.shapes_index {
-            match shapes_index.get(index) {
+            self.current_pos = UNKNOWN_POSITION;
+            let position = match shapes_index.get(index) {
                 Some(shape_idx) => self.source.seek(SeekFrom::Start(shape_idx.byte_offset()?)),
                 None => self.source.seek(SeekFrom::End(0)),
             }?;
+            self.current_pos = usize::try_from(position).unwrap_or(UNKNOWN_POSITION);
+            self.next_shape = index.min(shapes_index.len());
             Ok(())
         } else {
             Err(Error::MissingIndexFile)
